@@ -19,6 +19,17 @@ CLAIMED = {
              "checked on the implementation by measurement (runtime.MemStats), not proved.",
         technique="Rocq proof by induction on fuel over an executable decoder model + differential correspondence (extracted OCaml vs Go)",
         design="4 (C12)"),
+    "C20": dict(
+        text="Machine-checked theorems over the executable model of protocol.parseDirective/parseURLs/cbor.ArrayShift built on the CBOR "
+             "decoder model: totality for every instruction list and role, other-role directives yield the zero directive, invariance under "
+             "permutation of duplicate-free lists (by pairwise commutation of the per-variable steps), malformed values are ignored "
+             "(per-variable target types), and an exhaustive finite table for scheme/port defaults. Tied to the code by differential runs "
+             "of ParseDeviceRvInfo/ParseOwnerRvInfo over all 16 variables with valid/boundary/malformed/empty values (singletons, pairs, "
+             "random lists) plus implementation-only monitors for the same four statements.",
+        note=COMMON_NOTE + "net.IP.String is an oracle (standard library). ExtRV values with trailing bytes after the array are kept by "
+             "ArrayShift as documented and are not classified as malformed.",
+        technique="Rocq proof (totality, commutation => permutation invariance, finite table by vm_compute) + differential correspondence",
+        design="4 (C20)"),
     "C11": dict(
         text="Machine-checked round-trip theorems for the executable model of cbor.Encoder/Decoder and canonical-form theorems; model "
              "tied to the code by differential encoding/decoding of random well-formed values of 97 reflected target types and an "
